@@ -3,8 +3,10 @@
 // (lean/Generated/GConfigKey.lean). It only extracts; the Lean obligation
 // `code_memo_key_is_pair` decides.
 //
-//	pair   : a composite literal holding the request key and the reflect.Type of T
-//	concat : string concatenation of the key with something else (not injective)
+//	pair     : a composite literal holding the request key and exactly reflect.TypeFor[T]()
+//	typeName : a composite literal holding the key and something derived from the type
+//	           (its name/string form, TypeOf of a zero value): distinct types can share it
+//	concat   : string concatenation of the key with something else (not injective)
 package main
 
 import (
@@ -94,7 +96,7 @@ func mentions(e ast.Expr, pred func(ast.Node) bool) bool {
 func classify(e ast.Expr) string {
 	switch x := e.(type) {
 	case *ast.CompositeLit:
-		hasKey, hasType := false, false
+		hasKey, hasType, derivedType := false, false, false
 		for _, el := range x.Elts {
 			v := el
 			if kv, ok := el.(*ast.KeyValueExpr); ok {
@@ -103,19 +105,33 @@ func classify(e ast.Expr) string {
 			if id, ok := v.(*ast.Ident); ok && id.Name == "key" {
 				hasKey = true
 			}
-			if mentions(v, func(n ast.Node) bool {
+			if isTypeForT(v) {
+				hasType = true // the reflect.Type of T itself: type identity
+			} else if mentions(v, func(n ast.Node) bool {
 				s, ok := n.(*ast.SelectorExpr)
 				if !ok {
 					return false
 				}
 				p, ok := s.X.(*ast.Ident)
 				return ok && p.Name == "reflect" && (s.Sel.Name == "TypeFor" || s.Sel.Name == "TypeOf")
+			}) || mentions(v, func(n ast.Node) bool {
+				c, ok := n.(*ast.CallExpr)
+				if !ok {
+					return false
+				}
+				s, ok := c.Fun.(*ast.SelectorExpr)
+				return ok && strings.HasPrefix(s.Sel.Name, "Sprint")
 			}) {
-				hasType = true
+				// something DERIVED from the type (its name, its string form, TypeOf of a zero
+				// value, ...): distinct types can share it
+				derivedType = true
 			}
 		}
 		if hasKey && hasType && len(x.Elts) == 2 {
 			return "pair"
+		}
+		if hasKey && derivedType {
+			return "typeName"
 		}
 	case *ast.BinaryExpr:
 		if x.Op == token.ADD {
@@ -128,6 +144,24 @@ func classify(e ast.Expr) string {
 		}
 	}
 	return ""
+}
+
+// isTypeForT: exactly `reflect.TypeFor[T]()`
+func isTypeForT(e ast.Expr) bool {
+	c, ok := e.(*ast.CallExpr)
+	if !ok || len(c.Args) != 0 {
+		return false
+	}
+	ix, ok := c.Fun.(*ast.IndexExpr)
+	if !ok {
+		return false
+	}
+	s, ok := ix.X.(*ast.SelectorExpr)
+	if !ok {
+		return false
+	}
+	p, ok := s.X.(*ast.Ident)
+	return ok && p.Name == "reflect" && s.Sel.Name == "TypeFor"
 }
 
 func fail(msg string) {
